@@ -5,7 +5,7 @@ import os
 VERIF = os.path.dirname(os.path.dirname(os.path.abspath(__file__)))
 
 HOOK_COMMITS = ["b9d4bd0", "034d117", "c156e58"]
-FIX_COMMITS = ["d307ba7", "1245628", "e2789dc"]
+FIX_COMMITS = ["d307ba7", "1245628", "e2789dc", "37d0178", "8d97c84", "106b808", "4ace02c", "398b1f9"]
 
 TRUST = ("TLC 1.8 and the TLA+ reference modules (cross-validated against gcc 12 / gfortran / git where an "
          "external tool exists); the Python harness only materialises TLC-generated cases, reformats traces and "
@@ -45,6 +45,18 @@ CHECKS["C08"] = dict(
          "with orders reversed and through the CLI with every -p subset, each compared with the reference's expectation; "
          "every traced TU must start with an empty memo, an empty include-once set and exactly the -D macros.",
     design="3/C08")
+
+CHECKS["C02"] = dict(
+    technique="TLA+ transcription of C integer-constant-expression semantics (CInt limb arithmetic cross-checked by "
+              "TLC against native arithmetic; CExpr split-form parser + typed evaluation) as oracle; TLC-enumerated "
+              "expressions replayed through IfNode.evaluate_for_platform and finder.find",
+    text="CInt's 64-bit limb arithmetic is the same text TLC checks exhaustively against native arithmetic at 8 bits and "
+         "on boundary pairs at 16 bits; GenCExpr enumerates every a-op-b over boundary literals, every ordered pair of "
+         "binary operators, unary/ternary/parenthesised shapes and every literal spelling, and CExpr.Eval gives value, "
+         "signedness and definedness; each well-defined expression is probed through the real evaluator for truth, exact "
+         "value (==K / !=K), signedness and for not being evaluated in an #elif after a taken branch; the oracle is "
+         "validated against gcc -E.",
+    design="3/C02")
 
 PENDING_REASON = "check not built yet (build in progress; see DESIGN.md section 7)"
 
